@@ -606,8 +606,8 @@ package ice
 //@   loop 0 invariant[C04] c.w == old(c.w) && (isCHW(c.w) ==> cast(c.w, "*countHashWriter").n >= old(cast(c.w, "*countHashWriter").n))
 //@   loop 0 invariant[C04] 0 <= wn && outlen(c.w) - wn >= old(outlen(c.w)) && len(c.metaBuf) == 10
 //@   ghostset tablen(c) = wn
-//@   ensures[C04] @trailer_layout result0 == nil ==> tablen(c) >= 0 && outlen(c.w) - 8 - tablen(c) >= old(outlen(c.w))
-//@   ensures[C04] @trailer_layout result0 == nil ==> be32(out(c.w), outlen(c.w) - 8) == tablen(c) && be32(out(c.w), outlen(c.w) - 4) == len(c.offsets)
+//@   ensures[C04] @trailer_fits result0 == nil ==> tablen(c) >= 0 && outlen(c.w) - 8 - tablen(c) >= old(outlen(c.w))
+//@   ensures[C04] @trailer_words result0 == nil ==> be32(out(c.w), outlen(c.w) - 8) == tablen(c) && be32(out(c.w), outlen(c.w) - 4) == len(c.offsets)
 //@
 //@ func (*chunkedDocumentCoder).flush
 //@   requires[C04] c != nil && c.buf != nil && c.buf != c.w
@@ -871,7 +871,7 @@ package ice
 //@ // ---- Count() is a position in the writer's own stream (C04, C10) ----
 //@ // n counts exactly the bytes this writer accepted since it was created
 //@ ghostfield * wbase int
-//@ typeinv countHashWriter self.n == outlen(self) - wbase(self)
+//@ typeinv countHashWriter self.n == outlen(self) - wbase(self) && wbase(self) == 0
 //@ // (restates the wrapped writer's own invariant where the wrapped writer is one of ours)
 //@ typeinv countHashWriter isCHW(self.w) ==> cast(self.w, "*countHashWriter").n == outlen(self.w) - wbase(self.w) && cast(self.w, "*countHashWriter").w != self.w
 //@ func newCountHashWriter
@@ -879,9 +879,131 @@ package ice
 //@ func persistFooter
 //@   requires[C04,C10,C11] isCHW(writerIn) ==> cast(writerIn, "*countHashWriter").n == outlen(writerIn) - wbase(writerIn) && cast(writerIn, "*countHashWriter").w != writerIn
 //@ func newCountHashWriter
-//@   ghostset wbase(result0) = outlen(result0)
-//@   ensures[C04,C10,C11] wbase(result0) == outlen(result0)
+//@   ghostset outlen(result0) = 0
+//@   ghostset wbase(result0) = 0
+//@   ensures[C04,C10,C11] wbase(result0) == 0 && outlen(result0) == 0
 //@ func (*countHashWriter).Write
 //@   constructs c
-//@   requires[C04,C10,C11] c.n == outlen(c) - wbase(c) && c.w != c && dyntype(c) == typetag("*countHashWriter")
+//@   requires[C04,C10,C11] c.n == outlen(c) - wbase(c) && wbase(c) == 0 && c.w != c && dyntype(c) == typetag("*countHashWriter")
 //@   requires[C04,C10,C11] isCHW(c.w) ==> cast(c.w, "*countHashWriter").n == outlen(c.w) - wbase(c.w) && cast(c.w, "*countHashWriter").w != c.w
+//@
+//@ // ---- C04: the stored section ends with its chunk table and the 8-byte trailer, and
+//@ // storedIndexOffset is the stream position right behind it ----
+//@ func (*chunkedDocumentCoder).Write
+//@   loop 0 invariant[C04] wn >= rangeindex + 1
+//@   ensures[C04] @trailer_entries result0 == nil ==> tablen(c) >= len(c.offsets) && len(c.offsets) >= 1
+//@ func mergeStoredAndRemap
+//@   at call:(*countHashWriter).Count#0 lemma[C04] result0 + wbase(w) == outlen(w)
+//@   at call:(*countHashWriter).Count#0 lemma[C04] be32(out(w), outlen(w) - 8) + 8 <= outlen(w) - wbase(w) - old(w.n) && be32(out(w), outlen(w) - 4) <= be32(out(w), outlen(w) - 8) && be32(out(w), outlen(w) - 4) >= 1
+//@   ensures[C04] @trailer_before_stored_index err == nil ==> be32(out(w), wbase(w) + storedIndexOffset - 8) + 8 <= storedIndexOffset - old(w.n)
+//@   ensures[C04] @trailer_before_stored_index err == nil ==> 1 <= be32(out(w), wbase(w) + storedIndexOffset - 4) && be32(out(w), wbase(w) + storedIndexOffset - 4) <= be32(out(w), wbase(w) + storedIndexOffset - 8)
+//@   ensures[C04] @stored_index_size err == nil ==> w.n == storedIndexOffset + 8 * newSegDocCount
+//@ // the destination only ever grows while the stored section is produced
+//@ func (*chunkedDocumentCoder).newLine
+//@   requires[C04] c != nil && c.buf != nil && c.buf != c.w
+//@   ensures[C04] c.w == old(c.w) && (isCHW(c.w) ==> cast(c.w, "*countHashWriter").n >= old(cast(c.w, "*countHashWriter").n))
+//@ func (*chunkedDocumentCoder).Add
+//@   requires[C04] c != nil && c.buf != nil && c.buf != c.w
+//@   ensures[C04] c.w == old(c.w) && c.buf == old(c.buf) && (isCHW(c.w) ==> cast(c.w, "*countHashWriter").n >= old(cast(c.w, "*countHashWriter").n))
+//@ func (*Segment).copyStoredDocs
+//@   requires[C04] docChunkCoder != nil && docChunkCoder.buf != nil && docChunkCoder.buf != docChunkCoder.w
+//@   loop 0 invariant[C04] docChunkCoder.w == old(docChunkCoder.w) && docChunkCoder.buf == old(docChunkCoder.buf) && (isCHW(docChunkCoder.w) ==> cast(docChunkCoder.w, "*countHashWriter").n >= old(cast(docChunkCoder.w, "*countHashWriter").n))
+//@   loop 1 invariant[C04] docChunkCoder.w == old(docChunkCoder.w) && docChunkCoder.buf == old(docChunkCoder.buf) && (isCHW(docChunkCoder.w) ==> cast(docChunkCoder.w, "*countHashWriter").n >= old(cast(docChunkCoder.w, "*countHashWriter").n))
+//@   ensures[C04] docChunkCoder.w == old(docChunkCoder.w) && docChunkCoder.buf == old(docChunkCoder.buf) && (isCHW(docChunkCoder.w) ==> cast(docChunkCoder.w, "*countHashWriter").n >= old(cast(docChunkCoder.w, "*countHashWriter").n))
+//@ func mergeStoredAndRemapSegment
+//@   requires[C04] docChunkCoder != nil && docChunkCoder.buf != nil && docChunkCoder.buf != docChunkCoder.w
+//@   loop 0 invariant[C04] docChunkCoder.w == old(docChunkCoder.w) && docChunkCoder.buf == old(docChunkCoder.buf) && (isCHW(docChunkCoder.w) ==> cast(docChunkCoder.w, "*countHashWriter").n >= old(cast(docChunkCoder.w, "*countHashWriter").n))
+//@   ensures[C04] docChunkCoder.w == old(docChunkCoder.w) && docChunkCoder.buf == old(docChunkCoder.buf) && (isCHW(docChunkCoder.w) ==> cast(docChunkCoder.w, "*countHashWriter").n >= old(cast(docChunkCoder.w, "*countHashWriter").n))
+//@ func mergeStoredAndRemap
+//@   loop 0 invariant[C04] w.n >= old(w.n)
+//@   loop 1 invariant[C04] w.n >= old(w.n)
+//@   loop 2 invariant[C04] w.n == storedIndexOffset + 8 * (rangeindex + 1) && len(docNumOffsets) == newSegDocCount && outlen(w) == wbase(w) + w.n && storedIndexOffset >= old(w.n) + 8
+//@   loop 2 invariant[C04] be32(out(w), wbase(w) + storedIndexOffset - 8) + 8 <= storedIndexOffset - old(w.n)
+//@   loop 2 invariant[C04] 1 <= be32(out(w), wbase(w) + storedIndexOffset - 4) && be32(out(w), wbase(w) + storedIndexOffset - 4) <= be32(out(w), wbase(w) + storedIndexOffset - 8)
+//@
+//@ // what a countHashWriter has accepted is never rewritten: its stream only grows
+//@ // (the only assignment to out/outlen of one of ours is the append in its Write)
+//@ history[C04,C10,C11] forall(r, pat(out(r), isCHW(r) && !fresh(r) ==> outlen(r) >= old(outlen(r)) && forall(k, pat(select(out(r), k), 0 <= k && k < old(outlen(r)) ==> select(out(r), k) == select(old(out(r)), k)))))
+//@
+//@ // ---- C04: section order in the image: ... chunk table | trailer | stored index | ... | fields index ----
+//@ func persistFields
+//@   loop 0 invariant[C04] w.n >= old(w.n)
+//@   loop 1 invariant[C04] w.n == rv + 8 * (rangeindex + 1) && rv >= old(w.n)
+//@   ensures[C04] @fields_index_last result1 == nil ==> result0 >= old(w.n) && w.n == result0 + 8 * len(fieldsInv)
+//@ func persistMergedRest
+//@   ensures[C04] w.n >= old(w.n)
+//@ func mergeToWriter
+//@   ensures[C04] @trailer_before_stored_index err == nil ==> be32(out(cr), wbase(cr) + footerVal.storedIndexOffset - 8) + 8 <= footerVal.storedIndexOffset - old(cr.n)
+//@   ensures[C04] @trailer_before_stored_index err == nil ==> 1 <= be32(out(cr), wbase(cr) + footerVal.storedIndexOffset - 4) && be32(out(cr), wbase(cr) + footerVal.storedIndexOffset - 4) <= be32(out(cr), wbase(cr) + footerVal.storedIndexOffset - 8)
+//@   ensures[C04] @section_order err == nil ==> footerVal.storedIndexOffset + 8 * footerVal.numDocs <= footerVal.fieldsIndexOffset && footerVal.fieldsIndexOffset + 8 <= cr.n
+//@ func mergeFields
+//@   loop 2 invariant[C04] len(fields) >= 1
+//@   ensures[C04] len(fields) >= 1
+//@ func mergeToWriter
+//@   at call:mergeStoredAndRemap#0 lemma[C04] result2 == nil ==> cr.n == result0 + 8 * numDocs && outlen(cr) == wbase(cr) + cr.n && wbase(cr) == old(wbase(cr)) && len(fieldsInv) >= 1
+//@   at call:persistFields#0 lemma[C04] result1 == nil ==> storedIndexOffset + 8 * numDocs <= result0 && cr.n == result0 + 8 * len(fieldsInv) && wbase(cr) == old(wbase(cr))
+//@   at call:mergeStoredAndRemap#0 lemma[C04] result2 == nil ==> be32(out(cr), wbase(cr) + result0 - 8) + 8 <= result0 - old(cr.n) && 1 <= be32(out(cr), wbase(cr) + result0 - 4) && be32(out(cr), wbase(cr) + result0 - 4) <= be32(out(cr), wbase(cr) + result0 - 8)
+//@   at call:persistMergedRest#0 lemma[C04] result4 == nil ==> be32(out(cr), wbase(cr) + storedIndexOffset - 8) + 8 <= storedIndexOffset - old(cr.n) && 1 <= be32(out(cr), wbase(cr) + storedIndexOffset - 4) && be32(out(cr), wbase(cr) + storedIndexOffset - 4) <= be32(out(cr), wbase(cr) + storedIndexOffset - 8)
+//@   at call:persistFields#0 lemma[C04] result1 == nil ==> be32(out(cr), wbase(cr) + storedIndexOffset - 8) + 8 <= storedIndexOffset - old(cr.n) && 1 <= be32(out(cr), wbase(cr) + storedIndexOffset - 4) && be32(out(cr), wbase(cr) + storedIndexOffset - 4) <= be32(out(cr), wbase(cr) + storedIndexOffset - 8)
+//@
+//@ // ---- C04, load side: the chunk-table parser stays inside the image ----
+//@ // The facts assumed about the bytes are the ones the writers are proved to establish
+//@ // (mergeToWriter: trailer_before_stored_index, section_order; Write: trailer_layout), read
+//@ // back through storage that returns what was written.
+//@ func (*Segment).loadStoredFieldChunk
+//@   safety[C04] nil read idx slice
+//@   requires[C04] s != nil
+//@   assume 8 <= s.footer.storedIndexOffset && s.footer.storedIndexOffset + 2 <= dlen(s.data)
+//@   assume be32(dbytes(s.data), s.footer.storedIndexOffset - 8) + 8 <= s.footer.storedIndexOffset
+//@   assume be32(dbytes(s.data), s.footer.storedIndexOffset - 4) <= be32(dbytes(s.data), s.footer.storedIndexOffset - 8)
+//@   // every table entry is a well-formed uvarint inside the table (the table is the concatenation of chunkNum of them)
+//@   at call:encoding/binary.Uvarint#0 assume 1 <= result1 && offset + result1 + (chunkNum - i - 1) <= chunkOffsetsLen
+//@   loop 0 invariant[C04] 0 <= i && 0 <= offset && offset + (chunkNum - i) <= chunkOffsetsLen && len(s.storedFieldChunkOffsets) == chunkNum
+//@   loop 0 invariant[C04] s.data == old(s.data) && s.footer == old(s.footer) && s.footer.storedIndexOffset == old(s.footer.storedIndexOffset) && dlen(s.data) == old(dlen(s.data)) && chunkOffsetPos == s.footer.storedIndexOffset - 8 - chunkOffsetsLen
+//@   ensures[C04] @one_offset_per_chunk result0 == nil ==> len(s.storedFieldChunkOffsets) == be32(dbytes(s.data), s.footer.storedIndexOffset - 4)
+//@
+//@ // ---- C04, builder side: the same layout facts for New ----
+//@ func (*interim).writeStoredFields
+//@   requires[C04] s != nil && s.w != nil
+//@   loop 0 invariant[C04] docChunkCoder != nil && docChunkCoder.buf != nil && docChunkCoder.w == s.w && len(docChunkCoder.metaBuf) == 10 && docChunkCoder.buf != s.w && s.w == old(s.w) && s.w.n >= old(s.w.n)
+//@   loop 1 invariant[C04] docChunkCoder != nil && docChunkCoder.buf != nil && docChunkCoder.w == s.w && len(docChunkCoder.metaBuf) == 10 && docChunkCoder.buf != s.w && s.w == old(s.w) && s.w.n >= old(s.w.n)
+//@   loop 2 invariant[C04] docChunkCoder != nil && docChunkCoder.buf != nil && docChunkCoder.w == s.w && len(docChunkCoder.metaBuf) == 10 && docChunkCoder.buf != s.w && s.w == old(s.w) && s.w.n >= old(s.w.n)
+//@   // ownership: re-entered builds work on other builders (see convert)
+//@   at call:(github.com/blugelabs/bluge_segment_api.Document).EachField#0 assume s.w == old(s.w)
+//@   at call:(*countHashWriter).Count#0 lemma[C04] result0 == outlen(s.w) && result0 >= old(s.w.n) + 8
+//@   at call:(*countHashWriter).Count#0 lemma[C04] be32(out(s.w), outlen(s.w) - 8) + 8 <= outlen(s.w) - old(s.w.n) && be32(out(s.w), outlen(s.w) - 4) <= be32(out(s.w), outlen(s.w) - 8) && be32(out(s.w), outlen(s.w) - 4) >= 1
+//@   loop 3 invariant[C04] s.w == old(s.w) && s.w.n == storedIndexOffset + 8 * (rangeindex + 1) && storedIndexOffset >= old(s.w.n) + 8
+//@   loop 3 invariant[C04] be32(out(s.w), storedIndexOffset - 8) + 8 <= storedIndexOffset - old(s.w.n)
+//@   loop 3 invariant[C04] 1 <= be32(out(s.w), storedIndexOffset - 4) && be32(out(s.w), storedIndexOffset - 4) <= be32(out(s.w), storedIndexOffset - 8)
+//@   ensures[C04] @trailer_before_stored_index err == nil ==> be32(out(s.w), storedIndexOffset - 8) + 8 <= storedIndexOffset - old(s.w.n)
+//@   ensures[C04] @trailer_before_stored_index err == nil ==> 1 <= be32(out(s.w), storedIndexOffset - 4) && be32(out(s.w), storedIndexOffset - 4) <= be32(out(s.w), storedIndexOffset - 8)
+//@   ensures[C04] @stored_index_size err == nil ==> s.w == old(s.w) && s.w.n == storedIndexOffset + 8 * len(s.results)
+//@ func (*interim).writeDicts
+//@   ensures[C04] s.w == old(s.w)
+//@ func (*interim).getOrDefineField
+//@   ensures[C04] len(s.FieldsInv) >= old(len(s.FieldsInv)) && (!old(has(s.FieldsMap, fieldName)) ==> len(s.FieldsInv) >= 1)
+//@ func (*interim).convert
+//@   requires[C04] s != nil && s.w != nil && s.w.n == 0
+//@   at call:(*interim).writeStoredFields#0 lemma[C04] result2 == nil ==> be32(out(s.w), result0 - 8) + 8 <= result0 && 1 <= be32(out(s.w), result0 - 4) && be32(out(s.w), result0 - 4) <= be32(out(s.w), result0 - 8) && s.w.n == result0 + 8 * len(s.results)
+//@   // convert has sliced s.FieldsInv[1:] by then (the _id field), and field definitions only ever append
+//@   at call:(*interim).writeStoredFields#0 assume len(s.FieldsInv) >= 1
+//@   at call:(*interim).writeDicts#0 assume len(s.FieldsInv) >= 1
+//@   at call:(*interim).writeDicts#0 lemma[C04] s.w == old(s.w)
+//@   at call:(*interim).writeDicts#0 lemma[C04] len(s.results) == old(len(s.results))
+//@   at call:(*interim).writeDicts#0 lemma[C04] s.w.n >= storedIndexOffset + 8 * len(s.results)
+//@   at call:(*interim).writeDicts#0 lemma[C04] be32(out(s.w), storedIndexOffset - 8) + 8 <= storedIndexOffset && 1 <= be32(out(s.w), storedIndexOffset - 4) && be32(out(s.w), storedIndexOffset - 4) <= be32(out(s.w), storedIndexOffset - 8)
+//@   at call:persistFields#0 lemma[C04] result1 == nil ==> s.w == old(s.w) && result0 >= storedIndexOffset + 8 * len(s.results) && s.w.n == result0 + 8 * len(s.FieldsInv)
+//@   at call:persistFields#0 lemma[C04] result1 == nil ==> be32(out(s.w), storedIndexOffset - 8) + 8 <= storedIndexOffset && 1 <= be32(out(s.w), storedIndexOffset - 4) && be32(out(s.w), storedIndexOffset - 4) <= be32(out(s.w), storedIndexOffset - 8)
+//@   ensures[C04] @trailer_before_stored_index err == nil ==> f != nil && be32(out(s.w), f.storedIndexOffset - 8) + 8 <= f.storedIndexOffset && 1 <= be32(out(s.w), f.storedIndexOffset - 4) && be32(out(s.w), f.storedIndexOffset - 4) <= be32(out(s.w), f.storedIndexOffset - 8)
+//@   ensures[C04] @section_order err == nil ==> f.storedIndexOffset + 8 * len(s.results) <= f.fieldsIndexOffset && f.fieldsIndexOffset + 8 <= s.w.n
+//@ func persistMergedRest
+//@   loop 0 invariant[C04] w.n >= old(w.n)
+//@ func (*chunkedDocumentCoder).Write
+//@   at call:encoding/binary.Write#0 lemma[C04] result0 == nil ==> be32(out(c.w), outlen(c.w) - 4) == wn && outlen(c.w) - 4 - wn >= old(outlen(c.w))
+//@   at call:encoding/binary.Write#1 lemma[C04] result0 == nil ==> be32(out(c.w), outlen(c.w) - 8) == wn && be32(out(c.w), outlen(c.w) - 4) == len(c.offsets) && outlen(c.w) - 8 - wn >= old(outlen(c.w))
+//@ func (*chunkedDocumentCoder).flush
+//@   ensures[C04] result0 == nil ==> len(c.offsets) == old(len(c.offsets)) + 1
+//@ func (*chunkedDocumentCoder).Write
+//@   at call:(*chunkedDocumentCoder).flush#0 lemma[C04] result0 == nil ==> len(c.offsets) >= 1
+//@   at call:encoding/binary.Write#0 lemma[C04] len(c.offsets) >= 1
+//@   at call:encoding/binary.Write#0 lemma[C04] wn >= len(c.offsets)
